@@ -150,9 +150,50 @@ def outcome(fn):
         return c
 
 
+WILD_XSD = ('<xs:schema xmlns:xs="http://www.w3.org/2001/XMLSchema" targetNamespace="urn:c11" xmlns:t="urn:c11" '
+            'elementFormDefault="qualified"><xs:element name="other" type="xs:int"/><xs:element name="root"><xs:complexType><xs:sequence>'
+            '<xs:element name="a" type="xs:string"/><xs:any %s/><xs:element name="z" type="xs:string" minOccurs="0"/>'
+            '</xs:sequence><xs:anyAttribute %s/></xs:complexType></xs:element></xs:schema>')
+WILD_FORMS = {'10': ['namespace=""', 'namespace="##other"', 'namespace="urn:a urn:b"', 'namespace="##local"', 'namespace="##targetNamespace"',
+                     'namespace="##any"'],
+              '11': ['notNamespace="##targetNamespace urn:x"', 'notNamespace="##local"', 'notQName="t:other"', 'namespace="##any" notQName="##defined"',
+                     'notNamespace="urn:a"', 'namespace=""', 'namespace="##other"']}
+WILD_DOCS = ['<t:root xmlns:t="urn:c11"><t:a>x</t:a></t:root>', '<t:root xmlns:t="urn:c11"><t:a>x</t:a><t:a>y</t:a></t:root>',
+             '<t:root xmlns:t="urn:c11"><t:a>x</t:a><b xmlns="urn:other"/></t:root>', '<t:root xmlns:t="urn:c11"><t:a>x</t:a><b/></t:root>',
+             '<t:root xmlns:t="urn:c11"><t:a>x</t:a><t:other>1</t:other><t:z>q</t:z></t:root>', '<t:root xmlns:t="urn:c11"><t:z>q</t:z></t:root>',
+             '<t:root xmlns:t="urn:c11" xmlns:o="urn:a" o:k="1" k="2" t:k="3"><t:a>x</t:a><o:b/><o:b/></t:root>', '<t:root xmlns:t="urn:c11"/>']
+
+
+def gen_wild(ctx):
+    """element and attribute wildcards of every namespace-constraint form (also the forms whose set of admitted namespaces is
+    empty) as the expected / violated particle"""
+    cases = []
+    for version, forms in WILD_FORMS.items():
+        for f in forms:
+            for pc in ('strict', 'lax', 'skip'):
+                for occ in ('', ' minOccurs="0"', ' minOccurs="0" maxOccurs="2"'):
+                    xsd = WILD_XSD % (f + ' processContents="%s"%s' % (pc, occ), f + ' processContents="%s"' % pc)
+                    for d in WILD_DOCS:
+                        cases.append({'doc': d, 'version': version, 'xsd': xsd})
+    if ctx.quick():
+        cases = ctx.rng.sample(cases, 300)
+    return cases
+
+
 def subject_fuzz(case):
     import xmlschema
-    s = schemas()[case['version']]
+    if case.get('xsd'):
+        key = case['version'] + case['xsd']
+        if key not in _S:
+            try:
+                _S[key] = (xmlschema.XMLSchema11 if case['version'] == '11' else xmlschema.XMLSchema10)(case['xsd'])
+            except xmlschema.XMLSchemaException as e:
+                _S[key] = None
+        if _S[key] is None:
+            return {}
+        s = _S[key]
+    else:
+        s = schemas()[case['version']]
     src = case['doc'] if 'doc' in case else bytes.fromhex(case['hex'])
     out = {}
     out['is_valid'] = outcome(lambda: s.is_valid(src))
@@ -356,7 +397,7 @@ def run(ctx):
                 'flips, deep documents; 7 APIs per document; non-trivial = every case (all are error-path inputs)'
                 % (len(LEX_POOL), '7th' if ctx.quick() else ''))
     check_limits(ctx)
-    check_fuzz(ctx, gen_fuzz(ctx))
+    check_fuzz(ctx, gen_fuzz(ctx) + gen_wild(ctx))
     ctx.assumptions = ['exception containment is explored by seeded fuzzing and is not a theorem (C11 is partial by nature)',
                        'F-C11b: RecursionError for well-formed documents deeper than the interpreter allows is a known finding']
 
